@@ -82,7 +82,9 @@ CLAIMED['C13'] = (
     'argument and the result is the mapped value (vectors rotated by the toroidal angle). The periodic kernel remainder() '
     'is additionally decided in IEEE-754 double mode (z3 Float64) for every finite x and positive period: result in '
     '[0, period). All samplers are executed for sample counts <=3 (quick) / <=4 (thorough) per axis with symbolic ranges: '
-    'entry [i,j,k] is the function at (x_i,y_j,z_k) on the evenly spaced grid including both end points.',
+    'entry [i,j,k] is the function at (x_i,y_j,z_k) on the evenly spaced grid including both end points. PolygonMask2D is executed on '
+    'convex n-gons (n <= 4 quick, <= 6 thorough) and on quadrilaterals with one symbolic, possibly reflex, vertex: z3 proves mask == '
+    'point-in-polygon (crossing-number rule) for every point off the boundary.',
     'fmod in double mode by its C99 contract; sqrt/atan2 by defining equations; numpy.linspace modelled; PolygonMask2D on convex n-gons and quadrilaterals with one symbolic (possibly reflex) vertex, triangulate2d / Discrete2DMesh by contract; larger non-convex polygons not '
     'claimed (pure delegation to raysect triangulation).',
     'DESIGN.md §3 / Appendix A C13', TECH + '; z3 Float64 for the periodic kernel')
@@ -158,7 +160,9 @@ CLAIMED['C17'] = (
     'uniformity inside a triangle are outside the claim.',
     'DESIGN.md §3 / Appendix A C17', TECH)
 CLAIMED['C10'] = (
-    'Both RayTransfer integrators (translated) are executed with the voxel map an uninterpreted function from cells to source '
+    'For straight rays between two symbolic points inside a Cartesian grid (up to 3 / 6 samples, 2-8 cells, one source per cell) z3 '
+    'proves each cell entry is within two integration steps of the exact chord in that cell, cells missed by the ray get nothing '
+    'and the entries sum to the chord. Both RayTransfer integrators (translated) are also executed with the voxel map an uninterpreted function from cells to source '
     'ids in [-1,2), the ray length, start point and integration step symbolic and every sample position havocked (arbitrary '
     'positions inside the grid: a superset of all rays): for up to 2 (quick) / 4 (thorough) samples z3 proves n = '
     'max(min_samples, floor(length/step)), samples at (it+1/2) length/n, and that each source receives exactly dt times the '
